@@ -328,6 +328,20 @@ def grid(tier):
             out.append((res, lambda s, d, offs=offs: spline_case(s, offs)))
         for offs in ([(3, 0)], [(3, 0), (3, 4, 1)], [(1, 1), (1, 1), (0, 0, 2)]):
             out.append((res, lambda s, d, offs=offs: polyline_case(s, offs)))
+        # argument forms: extra words and a comment on every segment, Point objects, numpy arrays (3-element targets only:
+        # a Point always has three components, so a 2-D request cannot be expressed with it)
+        def with_form(case, **extra):
+            shape, args, exp = case
+            return shape, {**args, **extra}, exp
+        for form in ("point", "np"):
+            out.append((res, lambda s, d, form=form: with_form(arc_case(s, d, 4.0, 90, 2.0, 0, cz=0.0), form=form)))
+            out.append((res, lambda s, d, form=form: with_form(helix_case(s, d, 4.0, 0.5, 2, 90, 3.0, 200, cz=0.0), form=form)))
+            out.append((res, lambda s, d, form=form: with_form(spline_case(s, [(5, 5, 2), (10, 0, 2), (15, 5, 0)]), form=form)))
+            out.append((res, lambda s, d, form=form: with_form(thread_case(s, d, 6.0, 20, 5.2, 1.0), form=form)))
+        out.append((res, lambda s, d: with_form(arc_case(s, d, 4.0, 270, None, 135), kwargs={"F": 1200, "comment": "segment"})))
+        out.append((res, lambda s, d: with_form(circle_case(s, d, 3.0, 60), kwargs={"F": 900, "E": 1.5})))
+        out.append((res, lambda s, d: with_form(polyline_case(s, [(3, 0), (3, 4, 1)]), kwargs={"S": 50, "comment": "p"})))
+        out.append((res, lambda s, d: with_form(spiral_case(s, d, 4.0, 75, 2, 1.0), kwargs={"f": 600})))
     return out
 
 
